@@ -100,6 +100,32 @@ def finalisation(f):
     return d
 
 
+def scalar_writes(f):
+    """how a function updates a graph scalar: [(node, 'mul' | 'overwrite' | 'other', text)].
+    multiplicative: `*g.scalar_mut() *= x`, `g.scalar_mut().mul_sqrt2_pow(k)`, `.mul_phase(p)`, `.mul_one_plus_phase(p)`, and `*g.scalar_mut() = e` where e is computed from g.scalar()."""
+    out = []
+    for n in hir.nodes(f['hir']):
+        k = n.get('k')
+        if k in ('Assign', 'AssignOp'):
+            l = hir.strip(n['l'])
+            if l.get('k') == 'MethodCall' and l['name'] == 'scalar_mut':
+                if k == 'AssignOp':
+                    out.append((n, 'mul' if n['op'] == 'MulAssign' else 'other', hir.pp(n)[:60]))
+                else:
+                    uses_old = any(c.get('k') == 'MethodCall' and c['name'] == 'scalar' and hir.same_expr(c['recv'], l['recv']) for c in hir.calls(n['r']))
+                    if not uses_old:
+                        # a local computed from the old scalar (let s = g.scalar().conj(); *g.scalar_mut() = s)
+                        r = hir.local(hir.strip(n['r']))
+                        if r:
+                            for x in hir.nodes(f['hir']):
+                                if x.get('k') == 'Let' and x['pat'].get('k') == 'Bind' and x['pat']['id'] == r[1] and x.get('init') is not None:
+                                    uses_old = any(c.get('k') == 'MethodCall' and c['name'] == 'scalar' for c in hir.calls(x['init']))
+                    out.append((n, 'mul' if uses_old else 'overwrite', hir.pp(n)[:60]))
+        elif k == 'MethodCall' and hir.strip(n['recv']).get('k') == 'MethodCall' and hir.strip(n['recv'])['name'] == 'scalar_mut':
+            out.append((n, 'mul' if n['name'].startswith('mul_') else 'other', hir.pp(n)[:60]))
+    return out
+
+
 def _run_own(ck):
     facts = ck.facts
     ck.decided('D1 per-gate table of Gate::add_to_graph: spider colours, connecting edge, phase constant and sqrt2 power reduce to the same semantic descriptor as the reference gate semantics AND as the independent tensor-side table of Circuit::to_tensor',
@@ -149,6 +175,20 @@ def _run_own(ck):
         ck.ob('R-TABLE-graph', 'add_to_graph/%s/compound' % v, ok, ck.site(ATG), '%s must be translated through its basic-gate expansion (or the post-selected gadget): %s' % (v, raw['other']))
     traw = table['TOFF'][1]
     ck.ob('R-TABLE-graph', 'add_to_graph/TOFF/hadamards', traw['spiders'] == [(2, 'Z', 'H', Fr(0)), (2, 'Z', 'H', Fr(0))], ck.site(ATG), 'post-selected Toffoli must be the CCZ gadget conjugated by Hadamards on the target (position 2): %s' % traw['spiders'])
+    # the compound kinds are translated through their basic-gate expansion: the expansion must be the gate (shared with C15-D2: the constant CCZ / Toffoli
+    # sequences multiply out to the gate matrix; the parity-phase expansion has the right phase polynomial for every arity 0..8)
+    from .C15 import d2_structure
+    for key, ok, why, sample in d2_structure(facts):
+        ck.ob('R-TABLE-seq', 'push_basic_gates/' + key, ok, ck.site('gate::Gate::push_basic_gates'), why, sample=sample)
+    # every gate multiplies its scalar into the diagram's scalar: none may overwrite what the gates before it contributed
+    nsw = 0
+    for key, fn_ in sorted(facts['fns'].items()):
+        if fn_['file'].endswith(('quizx/src/gate.rs', 'quizx/src/circuit.rs')) and not fn_.get('macro'):
+            for i, (node, kind, text) in enumerate(scalar_writes(fn_)):
+                nsw += 1
+                ck.ob('R-SCALAR-mul', '%s/scalar-update-%d' % (key, i), kind == 'mul', ck.site(key, node),
+                      'the diagram scalar is %s here (`%s`): the scalar contributions of all earlier gates are lost / altered; a gate may only multiply its factor in' % ('overwritten' if kind == 'overwrite' else 'updated non-multiplicatively', text))
+    ck.floor('R-SCALAR-mul', nsw, 8)
     # ---- D2
     a = shift_block(arms['PostSelect']['body'])
     b = shift_block(arms['Measure']['body'])
